@@ -19,8 +19,8 @@ RULE = (
 ASSUMPTIONS = ["reference values (C01's oracle) are used to identify which state an entry belongs to"]
 BATCH = {"quick": 4, "thorough": 8}
 TIMEOUT = {"quick": 1500, "thorough": 7200}
-FLOORS = {"quick": {"arrays_checked": 200, "entries_compared": 15000, "w1_spaces_seen": 200, "declaration_orders": 60},
-          "thorough": {"arrays_checked": 1800, "entries_compared": 200000, "w1_spaces_seen": 1800, "declaration_orders": 700}}
+FLOORS = {"quick": {"arrays_checked": 200, "entries_compared": 15000, "declaration_orders": 60},
+          "thorough": {"arrays_checked": 1800, "entries_compared": 200000, "declaration_orders": 700}}
 
 ALL_STATES = ["r1", "r2", "e", "w", "z"]
 
